@@ -111,7 +111,11 @@ pub fn extra_command(cmd: &str, args: &[String]) -> bool {
             let v: serde_json::Value = serde_json::from_str(&std::fs::read_to_string(&args[2]).unwrap()).unwrap();
             let a = crate::ig::IG::from_json(&v["a"]).unwrap();
             let lat = crate::ig::Lat::from_json(&v["lat"]);
-            if let geo::Geometry::Polygon(p) = a.to_geo(&lat) {
+            if args.get(3).map(|s| s.as_str()) == Some("interior_point") {
+                use geo::InteriorPoint;
+                println!("{:?}", a.to_geo(&lat));
+                println!("{:?}", a.to_geo(&lat).interior_point());
+            } else if let geo::Geometry::Polygon(p) = a.to_geo(&lat) {
                 let r = geo::monotone_subdivision([p]);
                 for m in r {
                     println!("{:?}", m.into_polygon());
